@@ -5,9 +5,13 @@
    path (the internal Session literals between the caller's handle and the call site, with the
    fields they have in the CURRENT source, and the form of the call site's context argument) and
    must obtain the tag the driver observed.
+   In addition (round 7), for the operations whose STRUCTURE the harness states as an [opdesc]
+   (C18_Ops.v), the model builds the whole operation tree itself (op_tree over the roles record of
+   the current source) and its run from the caller's handle must equal the WHOLE list of driver
+   events of the operation, in order, as (kind, tag) pairs (prepare events left out on both sides).
    spec_holds: the property text on the observation: every event of an operation carries the
    operation's tag; a pre-cancelled context lets nothing run. *)
-From Verif Require Export Base C18_Model.
+From Verif Require Export Base C18_Model C18_Ops.
 Open Scope Z_scope.
 
 Record ev := mk_ev {
@@ -25,10 +29,13 @@ Record opc := mk_opc {
   o_cancelled : bool;           (* ... which was cancelled before the operation started *)
   o_err : bool;                 (* the operation returned an error *)
   o_unchanged : bool;           (* all tables equal before and after *)
-  o_events : list ev
+  o_events : list ev;
+  o_prep : bool;                (* PrepareStmt in force for the operation (Config or the caller's session) *)
+  o_derive : option slit;       (* the caller's further session that does not repeat the context *)
+  o_desc : option (list opdesc) (* the finisher calls of the operation, when the harness states their structure *)
 }.
 
-Record case := mk_case { c_copies : copies; c_ops : list opc }.
+Record case := mk_case { c_copies : copies; c_roles : roles; c_ops : list opc }.
 
 Definition ckind_eqb (a b : ckind) : bool :=
   match a, b with KBegin, KBegin | KPrepare, KPrepare | KExec, KExec | KQuery, KQuery => true | _, _ => false end.
@@ -49,10 +56,32 @@ Definition ev_agrees (cp : copies) (tag : ctx) (e : ev) : bool :=
   | _ => false
   end.
 
+Definition call_eqb (a b : call) : bool := ckind_eqb (fst a) (fst b) && (snd a =? snd b).
+Fixpoint calls_eqb (a b : list call) : bool :=
+  match a, b with
+  | [], [] => true
+  | x :: r, y :: s => call_eqb x y && calls_eqb r s
+  | _, _ => false
+  end.
+
+Definition observed_calls (o : opc) : list call := map (fun e => (e_kind e, e_tag e)) (o_events o).
+
+(* the whole operation: the tree the MODEL builds for the stated structure, run from the caller's
+   handle, yields the observed events one for one (a live operation that completed) *)
+Definition op_whole (cp : copies) (R : roles) (o : opc) : bool :=
+  match o_desc o with
+  | None => true
+  | Some ds =>
+      o_cancelled o || o_err o
+      || calls_eqb (filter not_prepare (run cp (caller_tree R (o_prep o) (o_tag o) (o_derive o) ds) root_handle))
+                   (filter not_prepare (observed_calls o))
+  end.
+
 (* the model has no failing statement: an operation whose context is live completes *)
 Definition model_agrees (c : case) : bool :=
   forallb (fun o => forallb (ev_agrees (c_copies c) (o_tag o)) (o_events o)
-                    && (o_cancelled o || negb (o_err o))) (c_ops c).
+                    && (o_cancelled o || negb (o_err o))
+                    && op_whole (c_copies c) (c_roles c) o) (c_ops c).
 
 Definition op_spec (o : opc) : bool :=
   (* every driver call made on behalf of the operation received the caller's context *)
